@@ -438,6 +438,64 @@ def fmt_iv(iv):
     return " ∪ ".join("[%s,%s]" % (lo, "∞" if hi == INF else hi) for lo, hi in iv) or "∅"
 
 
+def reject_through_option(ctx, facts, cfg):
+    """K4.reject across a function boundary.  When the unary-acceptance predicate is asked inside a function that
+    answers with an `Option` (a "find the operation" helper) and a denied acceptance makes it answer `None`, the
+    rejection is an error only if every caller turns that `None` into an `Err`.  A caller whose decision cases map the
+    helper's `None` to a success (`.map(..).transpose()`, `match … None => Ok(None)`) has turned "{op: x} with a
+    non-unary op" into "not an operation": the rule is handed back as a literal instead of being rejected.  Read on
+    path summaries of the helper and decision cases of its callers (Option/Result plumbing in case normal form)."""
+    from . import optnorm, pathsum
+    descs = [a for a, d in facts.adts.items() if d["kind"] == "enum" and {"Exactly", "AtLeast", "Variadic"} <= {v["name"] for v in d["variants"]}]
+    if len(descs) != 1:
+        return
+    unary = {k for k, it in facts.items.items() if it.get("kind") == "fn" and it.get("output") == "bool" and len(it.get("inputs") or []) == 1 and it["inputs"][0].lstrip("&").endswith(descs[0])}
+    n = 0
+    for B in facts.fns():
+        if B.kind != "fn" or not (facts.items.get(B.key, {}).get("output") or "").startswith("std::option::Option<"):
+            continue
+        sites = [bi for bi, t in B.calls() if callee_of(t) and callee_of(t).get("key") in unary]
+        if not sites:
+            continue
+        w = pathsum.summarize(B, max_paths=3000)
+        if w.overflow or not w.paths:
+            continue
+        denied = []
+        for p in w.paths:
+            if p.truncated or p.result is None:
+                continue
+            if any(p.atoms.get(("site", bi)) is False for bi in sites):
+                r = strip_refs(p.result)
+                if (r[0] == "agg" and r[1].get("variant") == "None") or (r[0] == "call" and r[1] and r[1]["path"].endswith("::from_residual")):
+                    denied.append(p)
+        if not denied:
+            continue
+        for C in facts.fns():
+            csites = [bi for bi, t in C.calls() if callee_of(t) and callee_of(t).get("key") == B.key]
+            if not csites or C.key == B.key:
+                continue
+            cases = optnorm.decision_cases(facts, C)
+            if cases is None:
+                continue
+            for conds, v, p in cases:
+                for k, val in conds.items():
+                    if k[0] != "variant" or val != "None":
+                        continue
+                    ex = (cases.exprs or {}).get(k)
+                    if ex is None:
+                        ex = optnorm.SRC_EXPRS.get(k)
+                    ex = strip_refs(ex) if ex is not None else None
+                    if ex is None or ex[0] != "call" or not ex[1] or ex[1].get("key") != B.key:
+                        continue
+                    n += 1
+                    vv = strip_refs(v)
+                    if vv[0] == "agg" and vv[1].get("variant") == "Ok":
+                        ctx.fail("K4.reject", "non-array operand of a non-unary operator is an error (%s)|%s via %s" % (cfg, C.key.split("::", 1)[1], B.key.split("::", 1)[1]),
+                                 "when unary acceptance is denied %s answers None, and its caller %s turns that None into %s: {op: x} with an operator that does not take one operand is treated as \"not an operation\" (a literal) instead of being rejected" % (
+                                     B.key.split("::", 1)[1], C.key.split("::", 1)[1], show_expr(vv)[:60]), where=B.where(sites[0]), fn=B.key)
+    ctx.count("callers of an Option-valued finder that asks the unary predicate (%s)" % cfg, n)
+
+
 def run(ctx):
     ctx.level = "proof"
     ctx.explanation = __doc__
@@ -447,6 +505,7 @@ def run(ctx):
     cfgs = ["default"] if ctx.tier == "quick" else ["default", "cmdline", "python", "wasm"]
     for cfg in cfgs:
         facts = ctx.facts(cfg)
+        reject_through_option(ctx, facts, cfg)
         tables = T.read_tables(facts)
         disp = Dispatcher(facts)
         roles = find_roles(facts, tables, disp)
